@@ -277,6 +277,8 @@ var alphabet = map[string][]string{
 	"pubkey":        {"0x" + strings.Repeat("02", 33), "0xzz", "0x00"},
 	"name_or_address": {encA, "aergo.system", "namedcontrct", "x"},
 	"luaGetBalance.contractId": {"<nil>", encB, encU, encN, "badaddr"},
+	// "multicall" with function name "" runs the built-in multicall code on the caller's state
+	"luaDelegateCallContract.contractId": {encB, encA, "multicall", encU, encN, "badaddr"},
 	// governance: the pair (gType, arg) is one choice, see govShapes
 	"snap":               {"1", "0", "x"},
 	"luaGetStaking.addr": {encA, encU},
@@ -977,13 +979,22 @@ func runMode(w *world, m mode, c caseT) (res result, viol, sigs []string, notes 
 		// execution wrote back must equal the committed one (an account that does
 		// not exist counts as the empty record) ...
 		committed := statedb.NewStateDB(w.store, w.root0, false)
+		var bad []string
 		for aid, enc := range bs.StateDB.VerifC20Puts() {
 			old, e := committed.GetAccountState(aid)
 			must(e)
 			oenc, _ := proto.Encode(old)
 			if !bytes.Equal(enc, oenc) {
-				r.violation("ro-account/"+m.name, fmt.Sprintf("account %s was written back with a different state after a read-only execution", aid))
+				nm := aid.String()
+				if n, ok := actorName[fmt.Sprintf("%x", aid[:6])]; ok {
+					nm = n
+				}
+				bad = append(bad, nm)
 			}
+		}
+		if len(bad) > 0 {
+			sort.Strings(bad)
+			r.violation("ro-account/"+m.name, fmt.Sprintf("accounts %v were written back with a different state after a read-only execution", bad))
 		}
 		must(bs.Update())
 		res.rootEq = bytes.Equal(bs.GetRoot(), w.root0)
@@ -1201,7 +1212,7 @@ func run(ctx *xplor.Ctx) {
 
 	full, small := 0, 1
 	if ctx.Tier == "thorough" {
-		small = 3
+		small = 2
 	}
 	n := 0
 	for _, ver := range versions(ctx.Tier) {
